@@ -142,7 +142,9 @@ def correspondence(ctx):
             def call():
                 asm = mieangfuncs.asm_mie_far(ab, th)
                 return cx(asm[1, 1]) + cx(asm[0, 0]) + cx(asm[0, 1]) + cx(asm[1, 0])
-            ctx.corr("asm_mie_far(f2py)", "asmfar %s " % f2b(th) + fl(flat), impl_call(call), tol=5e-7,
+            # asm_mie_far evaluates its prefactor (2n+1)/(n(n+1)) in SINGLE precision: each term carries ~6e-8, and the sum over
+            # ~x terms with cancellation has been measured at 1.1e-6 of the largest amplitude (x = 150); a wrong term is O(1)
+            ctx.corr("asm_mie_far(f2py)", "asmfar %s " % f2b(th) + fl(flat), impl_call(call), tol=5e-6,
                      inputs=dict(m=cx(m), x=x, theta=th), post=lambda outs: parse_floats(outs[0]) + [0.0, 0.0, 0.0, 0.0])
         elif k == 7:
             # van de Hulst coefficients of the lens theories at the CONJUGATE index = conjugates of the textbook series
